@@ -8,5 +8,5 @@ h = HARNESSES.get(name, {"kind": rest[0] if rest and rest[0] in ("raw", "rt") el
 if rest and rest[0] in ("raw", "rt"): rest = rest[1:]
 if rest and rest[0] == "--": rest = rest[1:]
 d = b.build_lib()
-exe = b.build_harness(name, h["kind"], d, extra_wraps=h.get("wraps", ()), lib_objs=h.get("objs"))
+exe = b.build_harness(h.get("src", name), h["kind"], d, extra_wraps=h.get("wraps", ()), lib_objs=h.get("objs"), defs=h.get("defs", ()), extra_srcs=h.get("extra_srcs", ()), link_flags=h.get("link_flags", ()), variant=h.get("variant", ""))
 sys.exit(subprocess.run([exe] + rest).returncode)
